@@ -16,6 +16,8 @@ REFINED = ["add_one_in_place", "sub_one_in_place", "add_word_in_place", "sub_wor
            "mul_word_in_place_with_carry", "shl_in_place (as used by mul_large_dword)", "is_power_of_two",
            "mul_dword_in_place (incl. leftover word)", "mul_dword/mul_dword_spilled", "mul_large_dword",
            "TypedReprRef::sqr small arm / square_dword_spilled",
+           "sqr::simple::square (triangular loop with c0, fused diagonal/doubling loop with c1,c2; the final carry "
+           "bits are zero)", "sqr::sqr dispatch (MAX_LEN_SIMPLE), square_large, equal-operands shortcut of mul_large",
            "add_mul_word_same_len_in_place", "add_mul_word_in_place",
            "sub_mul_word_same_len_in_place (carry_plus_max: no underflow, fits DoubleWord)",
            "simple::add_mul_chunk / sub_mul_chunk / add_signed_mul_chunk",
@@ -29,9 +31,8 @@ REFINED = ["add_one_in_place", "sub_one_in_place", "add_word_in_place", "sub_wor
            "UBig::pow factor-2 removal", "IBig::pow sign rule"]
 FRONTIER = ["toom_3::add_signed_mul_same_len (operands with min(len) > THRESHOLD_KARATSUBA=192): defined as its "
             "contract 'c += sign*a*b mod B^|c|, carry = quotient' inside the mirrored dispatcher",
-            "sqr::sqr (square_large, incl. the equal-operands shortcut of mul_large): defined as the exact square",
-            "inside pow: buffers of pow_word_base/pow_dword_base carried as values (res*wbase = mul_word_in_place proved "
-            "separately; res*res = sqr::sqr frontier); repr.shr(shift)/.shl(exp*shift)/trailing_zeros taken at spec (C09)",
+            "inside pow: buffers of pow_word_base/pow_dword_base carried as values (res*wbase = mul_word_in_place and "
+            "res*res = sqr::sqr proved separately); repr.shr(shift)/.shl(exp*shift)/trailing_zeros taken at spec (C09)",
             "Buffer capacity / allocation panics (C17)"]
 RULE = ("operand sizes drawn from the size classes {0,1,2,3,4,5, thr-1,thr,thr+1 for thr in 24,32,192, 385, 400, 1025, 2049...} x "
         "bit patterns {10..0, 1..1, 2^k, 2^k+-1, sparse, low words zero, random} x signs x "
@@ -50,10 +51,11 @@ EXPLANATION = ("Theorems (all W >= 1, all lengths, all signs): + and - are refin
                "carry_plus_max trick, add_mul_chunk / sub_mul_chunk) are refined to exact products; pow = base^exp for "
                "UBig/IBig with the sign rule, over the mirrored control flow of pow.rs. mul::add_signed_mul is refined "
                "for all operand lengths through chunk splitting and the Karatsuba recursion (slice-window updates with "
-               "signed carries; the algebraic identity is one linear_combination); the Toom-3 same-length kernel and "
-               "the squaring kernels (sqr::sqr, incl. the equal-operands shortcut of mul_large) are at the model frontier "
-               "(defined as their spec) and tied to the code by the correspondence run only. One finding: `exp * shift` in UBig::pow/IBig::pow overflows usize for "
-               "base = 2^s, exp*s >= 2^64 (wrong value 1 in release builds).")
+               "signed carries; the algebraic identity is one linear_combination); squaring (sqr::simple::square and the "
+               "dispatch to mul for > 30 words) is refined as well; only the Toom-3 same-length kernel is at the model "
+               "frontier (defined as its contract) and tied to the code by the correspondence run only. Found while stating the pow theorem and since repaired in /repo (fix: 099d251): "
+               "`exp * shift` in UBig::pow/IBig::pow overflowed usize for base = 2^s, exp*s >= 2^64 (wrong value 1 in "
+               "release builds); the corpus witness now agrees with the model (documented allocation panic).")
 ASSUMPTIONS = ["arch add_with_carry/sub_with_borrow and overflowing_add behave as their documented contracts"]
 
 THRESH = [24, 32, 192]
@@ -147,7 +149,8 @@ def boundary_cases(rng, tier):
 
 MUL_PAIRS_QUICK = [(24, 24), (24, 25), (25, 24), (25, 25), (3, 24), (24, 100), (25, 100), (24, 400),
                    (192, 192), (192, 193), (193, 192), (193, 193), (100, 193), (1025, 3), (1025, 24),
-                   (1024, 24), (2049, 5), (1025, 25)]
+                   (1024, 24), (2049, 5), (1025, 25), (1100, 24), (2048, 3), (60, 25), (30, 30), (31, 31),
+                   (26, 25), (49, 25), (75, 40), (200, 193)]
 MUL_PAIRS_THOROUGH = [(1025, 1025), (1024, 1025), (2049, 24), (2049, 25), (2049, 192), (2049, 193),
                       (2049, 2049), (2048, 2049), (4097, 24), (3000, 1025), (577, 193), (386, 385)]
 
@@ -216,7 +219,7 @@ LEVEL_TEXT = ("Machine-checked Lean 4 theorems, for every word size W >= 1, ever
               "with the asserted-zero carry of mul::multiply proved zero; the mirrored control flow of pow.rs computes "
               "base^exp with the IBig sign rule. The hand-written model is tied to /repo on every run by differential "
               "execution of model and real code over structured operands around every size-class and algorithm threshold, "
-              "all call forms. The Toom-3 same-length kernel (> 192 words) and the squaring kernels are at the "
+              "all call forms. Squaring is refined too. Only the Toom-3 same-length kernel (both operands > 192 words) is at the "
               "model frontier: decided by the correspondence against exact Nat arithmetic, not yet by a refinement theorem.")
 LEVEL_NOTE = ("Trusted: Lean kernel; axioms propext/Classical.choice/Quot.sound; the correspondence harness and generators "
               "(sampling) for the tie model<->code; arch intrinsics (add_with_carry, sub_with_borrow, overflowing_add, "
